@@ -473,7 +473,18 @@ def make_oracle(env):
             outs.append(raw(*a, **k))
         return ("ok", outs)
 
+    def hetero(impl, what, case):
+        # part of the property itself: a block array carries one homogeneous dtype
+        if impl[0] == "ok" and isinstance(impl[1], BA) and len({str(b.dtype) for b in impl[1].arrays}) > 1:
+            return {"call": what, "args": case.get("args"), "kwargs": case.get("kwargs"), "self": case.get("self"), "other": case.get("other"),
+                    "returned_block_dtypes": [str(b.dtype) for b in impl[1].arrays], "expected": "one dtype (ValueError otherwise)"}
+        return None
+
     def oracle(case):
+        r = _oracle(case)
+        return r
+
+    def _oracle(case):
         sec, kind = case.get("section"), case.get("kind")
         args = [unjson(env, a) for a in case.get("args", [])]
         kwargs = {k: unjson(env, v) for k, v in case.get("kwargs", {}).items()}
@@ -490,6 +501,9 @@ def make_oracle(env):
 
             sn = snp_of(env, fn_id)
             impl = impl_call(sn, args, kwargs)
+            h = hetero(impl, fn_id, case)
+            if h:
+                return h
             try:
                 bound = dict(inspect.signature(raw).bind(*args, **kwargs).arguments)
             except TypeError:
@@ -533,6 +547,9 @@ def make_oracle(env):
         if kind == "map":
             sn = snp_of(env, fn_id)
             impl = impl_call(sn, args, kwargs)
+            h = hetero(impl, fn_id, case)
+            if h:
+                return h
             try:
                 want = blockwise(raw, args, kwargs)
             except Exception as e:  # noqa: BLE001
@@ -554,6 +571,9 @@ def make_oracle(env):
             o = unjson(env, case["other"])
             pyf = PYOPS[case["fn"]]
             impl = impl_call(lambda: pyf(x, o), [], {})
+            h = hetero(impl, case["fn"], case)
+            if h:
+                return h
             if isinstance(o, BA) and len(o) != len(x):
                 if impl[0] != "err":
                     return {"expr": case["fn"], "self": case["self"], "other": case["other"], "scico_result": show_impl(impl), "expected": "TypeError (different numbers of blocks)"}
